@@ -93,7 +93,7 @@ func (w *World) Adversarial() *Tok {
 	case 5:
 		return w.RawID(drv.Pick(w.R, []string{w.someID("at"), w.someID("rt"), "rt99", "at99"}))
 	case 6, 7:
-		v := drv.Pick(w.R, []string{"other-issuer", "wrong-key", "wrong-kid", "expired", "expired+wrong-kid", "expired+wrong-key",
+		v := drv.Pick(w.R, []string{"near-issuer", "near-issuer", "near-issuer", "other-issuer", "wrong-key", "wrong-kid", "expired", "expired+wrong-kid", "expired+wrong-key",
 			"extra-key", "extra-key", "extra-key", "extra-key-expired"})
 		return w.CraftJWT(v, w.someID("at"), drv.Pick(w.R, Subjects), drv.Pick(w.R, issueClients), w.R.Chance(1, 3))
 	case 8:
